@@ -14,7 +14,7 @@ use serde_json::{json, Value};
 use std::cell::Cell;
 use std::time::Duration;
 
-pub const RULE: &str = "command scripts restricted to depth-limited searches: 1..6 rounds of 'position ...' / 'go depth d' (d in 1..4, pre-screened in-process under a node cap), interleaved with isready, positions from the small-position mixture incl. consecutive positions of one game (so the table, killers and history carry over and matter), optionally ucinewgame at generated points. Oracle 1 (run-to-run differential): the same script in R separate processes (each draws its own Zobrist keys and HashMap seeds; R = 3 quick / 8 thorough) gives byte-identical stdout after deleting the 'time' and 'nps' fields of info lines (depth, score, nodes, pv, bestmove and line order stay). Oracle 2 (fresh-equivalence, metamorphic): for prefix · ucinewgame · suffix the output after ucinewgame equals the output of suffix alone in a new process. Large searches: a few scripts from the start position (0..3 opening plies) searched to depth 6..8 (sized from a depth-5 probe to a few million nodes, i.e. hundreds of thousands of table entries), optionally followed by a second search two plies on, R concurrent runs. New-game generator: the new game revisits a position of the old one (same or one ply deeper search), or the old game is a knight-shuffle game from the start position (positions next to the start position occur 2-3 times) and the new game begins with a bare 'go depth d' on the start position ucinewgame sets up. Engine-played games (parts 'games', 'newgame-games'): the script a GUI would have sent while the engine played a game against itself on one engine (position restated + go depth 1..4 per ply, 3..14 plies, from endings with a decisive advantage and small positions: forced mates, mate scores in the table, terminal positions), judged by oracle 1, and by oracle 2 with that game as the old game and the same game (or its tail) as the new one. Non-trivial = >=2 searches of which a later one follows an earlier one in the same game (oracle 1) / prefix contains >=1 search (oracle 2); distinct by script text.";
+pub const RULE: &str = "command scripts restricted to depth-limited searches: 1..6 rounds of 'position ...' / 'go depth d' (d in 1..4, pre-screened in-process under a node cap), interleaved with isready, positions from the small-position mixture incl. consecutive positions of one game (so the table, killers and history carry over and matter), optionally ucinewgame at generated points. Oracle 1 (run-to-run differential): the same script in R separate processes (each draws its own Zobrist keys and HashMap seeds; R = 3 quick / 8 thorough) gives byte-identical stdout after deleting the 'time' and 'nps' fields of info lines (depth, score, nodes, pv, bestmove and line order stay). Oracle 2 (fresh-equivalence, metamorphic): for prefix · ucinewgame · suffix the output after ucinewgame equals the output of suffix alone in a new process. Large searches: a few scripts from the start position (0..3 opening plies) searched to depth 6..8 (sized from a depth-5 probe to a few million nodes, i.e. hundreds of thousands of table entries), optionally followed by a second search two plies on, R concurrent runs. New-game generator: sometimes the old game is only set up by position commands and never searched; the new game revisits a position of the old one (same or one ply deeper search), or the old game is a knight-shuffle game from the start position (positions next to the start position occur 2-3 times) and the new game begins with a bare 'go depth d' on the start position ucinewgame sets up. Engine-played games (parts 'games', 'newgame-games'): the script a GUI would have sent while the engine played a game against itself on one engine (position restated + go depth 1..4 per ply, 3..14 plies, from endings with a decisive advantage and small positions: forced mates, mate scores in the table, terminal positions), judged by oracle 1, and by oracle 2 with that game as the old game and the same game (or its tail) as the new one. Non-trivial = >=2 searches of which a later one follows an earlier one in the same game (oracle 1) / prefix contains >=1 search (oracle 2); distinct by script text.";
 
 thread_local! {
     static RUNS: Cell<usize> = Cell::new(3);
@@ -251,7 +251,13 @@ fn part_newgame(bytes: &[u8], stats: &mut Stats) -> Verdict {
     }
     let ns = 1 + s.below(3);
     let mut suffix_rounds = gen_rounds(&mut s, ns);
-    let prefix: Vec<String> = prefix_rounds.iter().flat_map(|r| r.lines.iter().cloned()).collect();
+    let mut prefix: Vec<String> = prefix_rounds.iter().flat_map(|r| r.lines.iter().cloned()).collect();
+    // sometimes the old game was only set up, never searched (a GUI loading a game and starting a
+    // new one): position commands leave state behind too
+    let unsearched_prefix = if mode == 2 { s.chance(40) } else { s.chance(8) };
+    if unsearched_prefix {
+        prefix.retain(|l| !l.starts_with("go"));
+    }
     let mut related = false;
     if mode == 1 {
         // the new game revisits a position of the old one (same command, possibly a deeper go):
@@ -293,6 +299,12 @@ fn part_newgame(bytes: &[u8], stats: &mut Stats) -> Verdict {
     if prefix_searches >= 1 {
         stats.class("prefix_contains_a_search");
         stats.nontrivial(&(prefix.clone(), suffix.clone()));
+    }
+    if unsearched_prefix && prefix.iter().any(|l| l.starts_with("position")) {
+        stats.class("old_game_was_set_up_but_never_searched");
+        if mode == 2 {
+            stats.nontrivial(&(prefix.clone(), suffix.clone()));
+        }
     }
     if related {
         stats.class("new_game_revisits_a_position_of_the_old_game");
